@@ -10,33 +10,39 @@ Open Scope Z_scope.
 (* beanquery.cursor.Cursor.fetchone *)
 Definition cursor_fetchone : fdef :=
   {| f_params := ["self"];
-     f_body := [(SIf (XBoolOp false [(XCompare (XAttr (XName "self") "_rows") [(CIs, (XConst PNone))]); (XNot (XLen (XAttr (XName "self") "_rows")))]) [(SReturn (Some (XConst PNone)))] []); (SAug (TSelf "_pos") OAdd (XConst (PInt 1))); (SReturn (Some (XPop (TSelf "_rows") (XConst (PInt 0)))))] |}.
+     f_body := [(SIf (XBoolOp false [(XCompare (XAttr (XName "self") "_rows") [(CIs, (XConst PNone))]); (XNot (XLen (XAttr (XName "self") "_rows")))]) [(SReturn (Some (XConst PNone)))] []); (SAug (TSelf "_pos") OAdd (XConst (PInt 1))); (SReturn (Some (XMethod (TSelf "_rows") "pop" [(XConst (PInt 0))])))];
+     f_gen := false |}.
 
 (* beanquery.cursor.Cursor.fetchmany *)
 Definition cursor_fetchmany : fdef :=
   {| f_params := ["self"; "size"];
-     f_body := [(SIf (XCompare (XAttr (XName "self") "_rows") [(CIs, (XConst PNone))]) [(SReturn (Some (XList [])))] []); (SAssign (TName "n") (XIfExp (XCompare (XName "size") [(CIsNot, (XConst PNone))]) (XName "size") (XAttr (XName "self") "arraysize"))); (SAssign (TName "rows") (XSlice (XAttr (XName "self") "_rows") None (Some (XName "n")))); (SAssign (TSelf "_rows") (XSlice (XAttr (XName "self") "_rows") (Some (XName "n")) None)); (SAug (TSelf "_pos") OAdd (XLen (XName "rows"))); (SReturn (Some (XName "rows")))] |}.
+     f_body := [(SIf (XCompare (XAttr (XName "self") "_rows") [(CIs, (XConst PNone))]) [(SReturn (Some (XList [])))] []); (SAssign (TName "n") (XIfExp (XCompare (XName "size") [(CIsNot, (XConst PNone))]) (XName "size") (XAttr (XName "self") "arraysize"))); (SAssign (TName "rows") (XSlice (XAttr (XName "self") "_rows") None (Some (XName "n")))); (SAssign (TSelf "_rows") (XSlice (XAttr (XName "self") "_rows") (Some (XName "n")) None)); (SAug (TSelf "_pos") OAdd (XLen (XName "rows"))); (SReturn (Some (XName "rows")))];
+     f_gen := false |}.
 Definition cursor_fetchmany_defaults : list expr := [(XConst PNone)].
 
 (* beanquery.cursor.Cursor.fetchall *)
 Definition cursor_fetchall : fdef :=
   {| f_params := ["self"];
-     f_body := [(SIf (XCompare (XAttr (XName "self") "_rows") [(CIs, (XConst PNone))]) [(SReturn (Some (XList [])))] []); (SAssign (TName "rows") (XAttr (XName "self") "_rows")); (SAssign (TSelf "_rows") (XList [])); (SAug (TSelf "_pos") OAdd (XLen (XName "rows"))); (SReturn (Some (XName "rows")))] |}.
+     f_body := [(SIf (XCompare (XAttr (XName "self") "_rows") [(CIs, (XConst PNone))]) [(SReturn (Some (XList [])))] []); (SAssign (TName "rows") (XAttr (XName "self") "_rows")); (SAssign (TSelf "_rows") (XList [])); (SAug (TSelf "_pos") OAdd (XLen (XName "rows"))); (SReturn (Some (XName "rows")))];
+     f_gen := false |}.
 
 (* beanquery.cursor.Cursor.rowcount *)
 Definition cursor_rowcount : fdef :=
   {| f_params := ["self"];
-     f_body := [(SReturn (Some (XAttr (XName "self") "_rowcount")))] |}.
+     f_body := [(SReturn (Some (XAttr (XName "self") "_rowcount")))];
+     f_gen := false |}.
 
 (* beanquery.cursor.Cursor.rownumber *)
 Definition cursor_rownumber : fdef :=
   {| f_params := ["self"];
-     f_body := [(SReturn (Some (XAttr (XName "self") "_pos")))] |}.
+     f_body := [(SReturn (Some (XAttr (XName "self") "_pos")))];
+     f_gen := false |}.
 
 (* beanquery.cursor.Cursor.description *)
 Definition cursor_description : fdef :=
   {| f_params := ["self"];
-     f_body := [(SReturn (Some (XAttr (XName "self") "_description")))] |}.
+     f_body := [(SReturn (Some (XAttr (XName "self") "_description")))];
+     f_gen := false |}.
 
 Definition refs : list (nat * string) :=
   [].
